@@ -1540,15 +1540,24 @@ fn interpolate_string(
 
     let mut result: Vec<String> = vec![];
 
+    // Slot boundaries are character offsets, so we convert them to byte
+    // offsets before slicing `s`.
+    let mut byte_offsets: Vec<usize> = s.char_indices().map(|(i, _)| i).collect();
+    byte_offsets.push(s.len());
+
     let mut last_slot_end = 0;
 
     for cur_slot in interpolation_slots {
         let (cur_slot_start, cur_slot_end) = cur_slot;
-        result.push(s[last_slot_end .. *cur_slot_start].to_string());
+        result.push(
+            s[byte_offsets[last_slot_end] .. byte_offsets[*cur_slot_start]]
+                .to_string(),
+        );
 
         // We shorten the slot to skip the delimiters (`${` at the start and
         // `}` at the end).
-        let directive = &s[(cur_slot_start+2) .. (cur_slot_end-1)];
+        let directive =
+            &s[byte_offsets[cur_slot_start+2] .. byte_offsets[cur_slot_end-1]];
 
         let slot_col = col + cur_slot_start + 4;
 
@@ -1602,7 +1611,7 @@ fn interpolate_string(
         last_slot_end = *cur_slot_end;
     }
 
-    result.push(s[last_slot_end ..].to_string());
+    result.push(s[byte_offsets[last_slot_end] ..].to_string());
 
     Ok(result.join(""))
 }
